@@ -1,7 +1,7 @@
 (* C16 — Compiled bytecode behaves like the tree-walking evaluator.
    Property theorems only; proofs are [exact <lemma of CompileProofs>]. *)
 From Coq Require Import ZArith NArith List String.
-From EvyV Require Import Base Bytecode SymTab Vm VmProofs Compile CompileSem CompileProofs CompileWfProofs CompileStmtProofs CompileJumpProofs CompileHoleProofs CompileCtlProofs CompileSemProofs.
+From EvyV Require Import Base Bytecode SymTab Vm VmProofs Compile CompileSem CompileProofs CompileWfProofs CompileStmtProofs CompileJumpProofs CompileHoleProofs CompileCtlProofs CompileSemProofs CompileSymProofs CompileLocProofs.
 Import ListNotations.
 Open Scope list_scope.
 
@@ -142,6 +142,46 @@ Theorem C16_compile_correct_ctl_partial : forall (p : slist) (st : cstate) (fuel
                           nth_error (globals s) (N.to_nat (sidx y)) = Some v.
 Proof. exact compile_correct_ctl. Qed.
 Print Assumptions C16_compile_correct_ctl_partial.
+
+(* ---------- … with block-local variables ---------- *)
+(* Fragment lpfrag: like psfrag, but declarations `x := e` and for loops WITH a
+   loop variable may stand anywhere — at top level (the compiler makes the
+   variable a global) and inside the blocks of if / else-if / else, while and
+   for (the compiler makes it a LOCAL of the block's scope and gives it a slot
+   of the VM's locals area; slots are reused once a block is closed) —, and
+   assignments `x = e` go to whatever the name resolves to.  Expressions are
+   in efrag and read globals and locals (_partial: no maps / slices / element
+   stores, no function calls, hence no call frames).  The semantics lx_l
+   (CompileSem.v) is the fuel-indexed big-step semantics of before over an
+   environment WITH BLOCK SCOPES: a list of frames, innermost first, the last
+   one the globals; a block pushes an empty frame and pops it at its end (also
+   when a break leaves it); `x := e` binds in the innermost frame, `x = e`
+   updates the innermost frame that has x, a loop variable lives in the frame
+   of the block around the loop's body (declared once, before the first
+   round, set in every round — like the compiler, which defines it in a scope
+   of its own around the body's).  For every such program: if the compiler
+   succeeds and the semantics is defined for SOME fuel, the VM model started
+   by NewVM runs to the end of the code, halts there with an empty operand
+   stack, and every global holds the value the semantics gives it.
+   Proof (CompileLocProofs.v): the simulation relation RELs maps every frame
+   of the environment to one scope of the compiler's symbol table (the
+   compile-time scope stack, replayed by the layout judgment LY) and says that
+   each VISIBLE name's slot — a global slot or a slot of the locals area —
+   holds the frame's value.  A store to one name keeps the relation for all
+   others because slots of simultaneously visible names are distinct
+   (NOSHARE, from SymTabProofs.Inv: visible_no_sharing of C17); a slot reused
+   by a later block is dead in the environment by then.  The stack guard
+   counts the locals area: LocalCount + the deepest statement fit the stack. *)
+Theorem C16_compile_correct_locals_partial : forall (p : slist) (st : cstate) (fuel : nat) (env' : senv),
+  lpfrag p = true -> compile p = COk st -> lx_l fuel p [[]] = Some (env', false) ->
+  (st_local_count (csym st) + ldepth p <= Gen.Opcodes.StackSize)%N ->
+  let prog := program_of (bytecode_of st) in
+  exists s, reaches prog (vm_init prog) s /\
+            vm_step prog s = Halted s /\ ostack s = [] /\
+            forall n y v, st_resolve n (csym st) = Some y -> slook n env' = Some v ->
+                          nth_error (globals s) (N.to_nat (sidx y)) = Some v.
+Proof. exact compile_correct_locals. Qed.
+Print Assumptions C16_compile_correct_locals_partial.
 
 (* ---------- the compiler's output is well formed (straight-line fragment) ---------- *)
 (* For every top-level program made of declarations `x := e` and assignments
@@ -549,6 +589,64 @@ Example C16_ex_locals_fragment :
   | CErr _ => False
   end.
 Proof. vm_compute. repeat split; reflexivity. Qed.
+
+(* the scoped semantics on ex_locals (block-local y, z / w sharing a slot, loop
+   variable i inside the while body), and a loop variable nested in a for body
+   with a shadowing declaration and a break:
+   t := 0
+   for i := range 3
+     x := i * 10                      // local of the body
+     for j := range [1 2 3]           // loop variable: local
+       if j == 3: break end
+       x := x + j                     // a NEW x in the inner body (shadows), dies with it
+       t = t + x
+     end
+     t = t + x                        // the outer x, untouched
+   end                                // t = (1+2) + 0 + (11+12) + 10 + (21+22) + 20 = 99 *)
+Definition ex_nested : slist :=
+  let num k := ENum (float_of_Z k) in
+  let tadd e := SAssign (EVar (s_ "t")) (EBin BPlus TNum TNum (EVar (s_ "t")) e) in
+  SCons (SDecl (s_ "t") (num 0%Z))
+ (SCons (SForStep (Some (s_ "i")) ONoneE (num 3%Z) ONoneE
+          (SCons (SDecl (s_ "x") (EBin BStar TNum TNum (EVar (s_ "i")) (num 10%Z)))
+          (SCons (SForIter (Some (s_ "j")) TArr (EArr (ECons (num 1%Z) (ECons (num 2%Z) (ECons (num 3%Z) ENil))))
+                    (SCons (SIf (EBin BEq TNum TNum (EVar (s_ "j")) (num 3%Z)) (SCons SBreak SNil) CNil NoElse)
+                    (SCons (SDecl (s_ "x") (EBin BPlus TNum TNum (EVar (s_ "x")) (EVar (s_ "j"))))
+                    (SCons (tadd (EVar (s_ "x"))) SNil))))
+          (SCons (tadd (EVar (s_ "x"))) SNil)))) SNil).
+
+Example C16_ex_locals_defined :
+  lpfrag ex_locals = true /\
+  match compile ex_locals with
+  | COk st => (st_local_count (csym st) + ldepth ex_locals <= Gen.Opcodes.StackSize)%N /\
+      match vm_run 2000 (program_of (bytecode_of st)) (vm_init (program_of (bytecode_of st))) with
+      | FHalted s => globals s = [VNum (float_of_Z 4)] /\ ostack s = []
+      | _ => False
+      end
+  | CErr _ => False
+  end /\
+  match lx_l 60 ex_locals [[]] with
+  | Some (env, false) => slook (s_ "x") env = Some (VNum (float_of_Z 4)) /\ slook (s_ "y") env = None /\ List.length env = 1%nat
+  | _ => False
+  end.
+Proof. vm_compute. repeat split; try reflexivity; discriminate. Qed.
+
+Example C16_ex_nested_defined :
+  lpfrag ex_nested = true /\
+  match compile ex_nested with
+  | COk st => (st_local_count (csym st) + ldepth ex_nested <= Gen.Opcodes.StackSize)%N /\
+      match vm_run 4000 (program_of (bytecode_of st)) (vm_init (program_of (bytecode_of st))) with
+      | FHalted s => nth_error (globals s) 0 = Some (VNum (float_of_Z 99)) /\ ostack s = []
+      | _ => False
+      end
+  | CErr _ => False
+  end /\
+  match lx_l 80 ex_nested [[]] with
+  | Some (env, false) => slook (s_ "t") env = Some (VNum (float_of_Z 99)) /\ slook (s_ "i") env = Some (VNum (float_of_Z 2)) /\
+                         slook (s_ "x") env = None
+  | _ => False
+  end.
+Proof. vm_compute. repeat split; try reflexivity; discriminate. Qed.
 
 Example C16_ex_straightline_semantics :
   let p := SCons (SDecl (s_ "x") (ENum (float_of_Z 7)))
